@@ -71,6 +71,8 @@ enum TKind {
 enum Part {
     Lit(String),
     Key(&'static str, Option<u16>),
+    /// a '\n' of the template (TemplatePart::NewLine)
+    NewLine,
 }
 
 #[derive(Clone, Debug)]
@@ -111,6 +113,9 @@ struct Cfg {
     customs: Vec<(&'static str, TKind)>,
     template: Vec<Part>,
     width: u16,
+    /// the texts of the history contain NUL (the marker format_state uses for a wide element):
+    /// outside the domain of the oracle's frame comparison, correspondence only
+    nul: bool,
 }
 
 #[derive(Clone, Copy, Debug, PartialEq, Eq)]
@@ -347,16 +352,19 @@ fn expand(s: &str, tab: usize) -> String {
     s.replace('\t', &" ".repeat(tab))
 }
 
-/// expected lines of a frame + (start offset, class) of every segment of the joined text
+/// Expected text of ONE template line (the parts between two newlines of the template), from the
+/// getters alone, + (start offset, class) of every part of it.  `None` = the line is not drawn.
 #[allow(clippy::too_many_arguments)]
-fn expected_lines(
+fn expected_line(
     cfg: &Cfg,
+    parts: &[Part],
+    last: bool,
     bk: &Book,
     g: &G,
     fraction: f32,
     t: &mut Table,
     alias_bad: &mut Option<String>,
-) -> (Vec<String>, Vec<(usize, String)>) {
+) -> (Option<String>, Vec<(usize, String)>) {
     let v = View {
         pos: g.pos,
         len: g.len,
@@ -364,8 +372,9 @@ fn expected_lines(
     };
     // (text, class, is wide placeholder)
     let mut segs: Vec<(String, String, Option<&'static str>)> = vec![];
-    for p in &cfg.template {
+    for p in parts {
         match p {
+            Part::NewLine => unreachable!("a template line has no newline"),
             Part::Lit(s) => segs.push((s.clone(), "literal".into(), None)),
             Part::Key(k, w) => {
                 let custom = cfg.customs.iter().find(|(n, _)| n == k).map(|(_, kind)| *kind);
@@ -399,6 +408,7 @@ fn expected_lines(
             }
         }
     }
+    // the wide element of THIS line fills what the rest of THIS line leaves of the terminal width
     if let Some(i) = segs.iter().position(|s| s.2.is_some()) {
         let rest: usize = segs.iter().map(|s| s.0.chars().count()).sum();
         let left = (cfg.width as usize).saturating_sub(rest);
@@ -424,12 +434,44 @@ fn expected_lines(
         map.push((line.chars().count(), class.clone()));
         line.push_str(text);
     }
-    // `if !cur.is_empty()` is tested before a wide element is expanded: its placeholder counts
-    if line.is_empty() && !segs.iter().any(|s| s.2.is_some()) {
-        (vec![], map)
+    // a line that is ended by a newline of the template is always drawn (an empty row if it has
+    // no text); the text after the last newline only if there is any - where the placeholder of a
+    // wide element counts (`if !cur.is_empty()` is tested before the wide element is expanded)
+    if last && line.is_empty() && !segs.iter().any(|s| s.2.is_some()) {
+        (None, map)
     } else {
-        (line.split('\n').map(|s| s.to_string()).collect(), map)
+        (Some(line), map)
     }
+}
+
+/// Expected rows of a frame: every template line rendered BY ITSELF from the same getters, one
+/// after the other (a value containing '\n' gives several rows) + (start offset, class) of every
+/// part in the rows joined by '\n'.
+fn expected_lines(
+    cfg: &Cfg,
+    bk: &Book,
+    g: &G,
+    fraction: f32,
+    t: &mut Table,
+    alias_bad: &mut Option<String>,
+) -> (Vec<String>, Vec<(usize, String)>) {
+    let tlines: Vec<&[Part]> = cfg.template.split(|p| matches!(p, Part::NewLine)).collect();
+    let n = tlines.len();
+    let mut rows = vec![];
+    let mut map = vec![];
+    let mut off = 0usize;
+    for (i, parts) in tlines.iter().enumerate() {
+        let (text, m) = expected_line(cfg, parts, i + 1 == n, bk, g, fraction, t, alias_bad);
+        if !rows.is_empty() && text.is_some() {
+            off += 1; // the '\n' that joins the rows
+        }
+        map.extend(m.into_iter().map(|(start, class)| (off + start, class)));
+        if let Some(text) = text {
+            off += text.chars().count();
+            rows.extend(text.split('\n').map(|s| s.to_string()));
+        }
+    }
+    (rows, map)
 }
 
 /// percentage defined by position and length alone (no use of fraction())
@@ -452,6 +494,7 @@ fn cpart(p: &Part) -> String {
     match p {
         Part::Lit(s) => format!("PLit {}", cstr(s)),
         Part::Key(k, w) => format!("PKey \"{k}\" {}", copt(w.map(|w| w.to_string()))),
+        Part::NewLine => "PNewLine".into(),
     }
 }
 fn cfin(f: &Fin) -> String {
@@ -567,23 +610,36 @@ fn template_string(parts: &[Part]) -> String {
             Part::Key(k, Some(w)) => {
                 let _ = write!(s, "{{{k}:{w}}}");
             }
+            Part::NewLine => s.push('\n'),
         }
     }
     s
 }
 
-/// frames written to the spy: one per Flush; the lines are all write_str payloads but the last
-/// (the filler that parks the cursor at the right edge)
+/// frames written to the spy: one per Flush.  draw_to_term writes every row with one
+/// `write_str`, a `write_line("")` BEFORE every row but the first, and a `write_str` of blanks (the
+/// filler that parks the cursor at the right edge) after the last row - and after an empty first
+/// row.  So: the ops of a frame are cut at the `write_line`s, the row of a group is its first
+/// `write_str` (a group without one counts as an empty row, a `write_line` with a payload as a row).
 fn frames(ops: Vec<TOp>) -> Vec<Vec<String>> {
     let mut out = vec![];
-    let mut cur: Vec<String> = vec![];
+    let mut groups: Vec<Vec<String>> = vec![vec![]];
     for o in ops {
         match o {
-            TOp::Str(s) => cur.push(s),
+            TOp::Str(s) => groups.last_mut().unwrap().push(s),
+            TOp::Line(s) => {
+                if !s.is_empty() {
+                    groups.push(vec![s]);
+                }
+                groups.push(vec![]);
+            }
             TOp::Flush => {
-                let mut f = std::mem::take(&mut cur);
-                f.pop();
-                out.push(f);
+                let gs = std::mem::replace(&mut groups, vec![vec![]]);
+                if gs.len() == 1 && gs[0].is_empty() {
+                    out.push(vec![]);
+                } else {
+                    out.push(gs.into_iter().map(|g| g.into_iter().next().unwrap_or_default()).collect());
+                }
             }
             _ => {}
         }
@@ -799,7 +855,9 @@ fn run_case(s: &mut Session, cfg: &Cfg, ops: &[(u64, Op)], tag: &str) {
                     ));
                 }
             }
-            if *lines != want {
+            if cfg.nul {
+                // NUL in the texts: the frame is compared with the model only
+            } else if *lines != want {
                 let a = lines.join("\n");
                 let b = want.join("\n");
                 let at = a
@@ -908,6 +966,32 @@ fn run_case(s: &mut Session, cfg: &Cfg, ops: &[(u64, Op)], tag: &str) {
             };
             if *k != "probe" {
                 s.count(&format!("key:{kind}{}", if w.is_some() { ":W" } else { "" }));
+            }
+        }
+    }
+    {
+        let tl: Vec<&[Part]> = cfg.template.split(|p| matches!(p, Part::NewLine)).collect();
+        let is_wide = |p: &Part| matches!(p, Part::Key(k, _) if k.starts_with("wide_") && !cfg.customs.iter().any(|(n, _)| n == k));
+        s.count(&format!("template:lines={}", tl.len()));
+        if tl.len() > 1 {
+            for (i, l) in tl.iter().enumerate() {
+                let last = i + 1 == tl.len();
+                if l.is_empty() {
+                    s.count(if last { "template:trailing-newline" } else if i == 0 { "template:empty-first-line" } else { "template:empty-inner-line" });
+                }
+                for p in l.iter().filter(|p| is_wide(p)) {
+                    if let Part::Key(k, _) = p {
+                        s.count(&format!("template:{k}-on-{}-line", if last { "final" } else { "non-final" }));
+                    }
+                }
+                if i > 0 && l.iter().any(|p| matches!(p, Part::Key(..))) {
+                    if tl[..i].iter().any(|e| e.iter().any(|p| matches!(p, Part::Key("wide_msg", _)))) {
+                        s.count("template:placeholder-after-wide_msg-line");
+                    }
+                    if tl[..i].iter().any(|e| e.iter().any(|p| matches!(p, Part::Key("wide_bar", _)))) {
+                        s.count("template:placeholder-after-wide_bar-line");
+                    }
+                }
             }
         }
     }
@@ -1043,21 +1127,23 @@ fn gen_op(r: &mut Rng, ascii: bool, nl: bool) -> Op {
 
 const LITS: [&str; 6] = [" ", "/", " | ", "[", "] ", "eta:"];
 
-/// random template: 1..=4 keys; at most one wide key (never with a width); widths only on keys
-/// whose values are ASCII
-fn gen_cfg(r: &mut Rng) -> (Cfg, bool, bool) {
-    let nkeys = r.range(1, 4);
-    let wide = r.chance(1, 5);
-    let mut customs: Vec<(&'static str, TKind)> = vec![];
-    let mut template = vec![];
-    let mut any_width = false;
-    let wide_at = r.below(nkeys);
+/// one random template line: `nkeys` keys with literals around them; with `wide`, one of them is a
+/// wide key (never with a width); widths only on keys whose values are ASCII
+fn gen_line(
+    r: &mut Rng,
+    nkeys: u64,
+    wide: bool,
+    customs: &mut Vec<(&'static str, TKind)>,
+    any_width: &mut bool,
+) -> Vec<Part> {
+    let mut line = vec![];
+    let wide_at = if nkeys > 0 { r.below(nkeys) } else { 0 };
     if r.chance(1, 2) {
-        template.push(Part::Lit(r.pick(&LITS).to_string()));
+        line.push(Part::Lit(r.pick(&LITS).to_string()));
     }
     for i in 0..nkeys {
         if wide && i == wide_at {
-            template.push(Part::Key(if r.chance(1, 2) { "wide_bar" } else { "wide_msg" }, None));
+            line.push(Part::Key(if r.chance(1, 2) { "wide_bar" } else { "wide_msg" }, None));
         } else {
             let k: &'static str = match r.below(20) {
                 0 => *r.pick(&UNKNOWN),
@@ -1090,15 +1176,55 @@ fn gen_cfg(r: &mut Rng) -> (Cfg, bool, bool) {
                 },
             };
             let w = if r.chance(1, 4) {
-                any_width = true;
+                *any_width = true;
                 Some(*r.pick(&[0u16, 1, 2, 3, 5, 8, 12, 20, 33]))
             } else {
                 None
             };
-            template.push(Part::Key(k, w));
+            line.push(Part::Key(k, w));
         }
         if r.chance(2, 3) {
-            template.push(Part::Lit(r.pick(&LITS).to_string()));
+            line.push(Part::Lit(r.pick(&LITS).to_string()));
+        }
+    }
+    line
+}
+
+/// random template.  3 of 5: one line of 1..=4 keys, at most one wide key.  2 of 5: 2..=3 lines
+/// (each: empty 1 of 6, else 0..=3 keys, a wide key of its own 2 of 5 - so wide_msg / wide_bar sit
+/// on final and non-final lines, followed by placeholders on later lines), a trailing newline 1 of 5.
+/// `{probe}` ends a non-empty line.
+fn gen_cfg(r: &mut Rng) -> (Cfg, bool, bool) {
+    let mut customs: Vec<(&'static str, TKind)> = vec![];
+    let mut any_width = false;
+    let mut any_wide = false;
+    let mut lines: Vec<Vec<Part>> = vec![];
+    if r.chance(3, 5) {
+        let nkeys = r.range(1, 4);
+        any_wide = r.chance(1, 5);
+        lines.push(gen_line(r, nkeys, any_wide, &mut customs, &mut any_width));
+    } else {
+        let nlines = r.range(2, 3);
+        for _ in 0..nlines {
+            if r.chance(1, 6) {
+                lines.push(vec![]);
+                continue;
+            }
+            let nkeys = r.below(4);
+            let wide = nkeys > 0 && r.chance(2, 5);
+            any_wide |= wide;
+            let mut l = gen_line(r, nkeys, wide, &mut customs, &mut any_width);
+            if l.is_empty() {
+                l.push(Part::Lit(r.pick(&LITS).to_string()));
+            }
+            lines.push(l);
+        }
+        if lines.iter().all(|l| l.is_empty()) {
+            let i = r.below(lines.len() as u64) as usize;
+            lines[i] = gen_line(r, 1, false, &mut customs, &mut any_width);
+        }
+        if r.chance(1, 5) {
+            lines.push(vec![]); // the template ends with a newline
         }
     }
     // a second logger that is not in the template still has to be ticked
@@ -1106,8 +1232,17 @@ fn gen_cfg(r: &mut Rng) -> (Cfg, bool, bool) {
         customs.push(("lg2", TKind::Logger));
     }
     customs.push(("probe", TKind::Probe));
-    template.push(Part::Key("probe", None));
-    let ascii = wide || any_width;
+    let full: Vec<usize> = (0..lines.len()).filter(|i| !lines[*i].is_empty()).collect();
+    let at = if r.chance(1, 2) { *full.last().unwrap() } else { *r.pick(&full) };
+    lines[at].push(Part::Key("probe", None));
+    let mut template = vec![];
+    for (i, l) in lines.into_iter().enumerate() {
+        if i > 0 {
+            template.push(Part::NewLine);
+        }
+        template.extend(l);
+    }
+    let ascii = any_wide || any_width;
     let ticks = if !ascii && r.chance(1, 3) {
         "⠁⠁⠉⠙⠚⠒⠂⠂⠒⠲⠴⠤⠄⠄⠤⠠⠠⠤⠦⠖⠒⠐⠐⠒⠓⠋⠉⠈⠈ ".chars().map(|c| c.to_string()).collect()
     } else {
@@ -1123,9 +1258,10 @@ fn gen_cfg(r: &mut Rng) -> (Cfg, bool, bool) {
         tab: *r.pick(&[8usize, 8, 4, 1, 0, 3]),
         customs,
         template,
-        width: if wide { *r.pick(&[40u16, 80, 100, 7, 1]) } else { 1000 },
+        width: if any_wide { *r.pick(&[40u16, 80, 100, 7, 1]) } else { 1000 },
+        nul: false,
     };
-    (cfg, ascii, !wide && !any_width)
+    (cfg, ascii, !any_wide && !any_width)
 }
 
 fn family_templates() -> Vec<Vec<Part>> {
@@ -1188,6 +1324,7 @@ fn base_cfg(template: Vec<Part>, len0: Option<u64>, width: u16) -> Cfg {
         customs,
         template,
         width,
+        nul: false,
     }
 }
 
@@ -1291,6 +1428,63 @@ fn corpus(s: &mut Session) {
         v.push(Part::Key("probe", None));
         v
     };
+    // ---- multi-line templates.  First the witness of seeded defect C10-2 (scratch buffer cleared
+    // after instead of before use: the first placeholder of the line after a {wide_msg} line gets
+    // the padded message in front of its value), then the other ways a line could see another one.
+    let k = |k: &'static str| Part::Key(k, None);
+    let kw = |k: &'static str, w: u16| Part::Key(k, Some(w));
+    let l = |x: &str| Part::Lit(x.to_string());
+    let nl = || Part::NewLine;
+    let ml_ops = || {
+        vec![
+            (0, Op::SetPrefix("job".into())),
+            (0, Op::SetMessage("hello".into())),
+            (2_000_000, Op::Inc(3)),
+            (1_000_000_000, Op::Tick),
+            (0, Op::SetMessage("a message that is longer than the terminal is wide".into())),
+            (500_000_000, Op::Finish(Fin::WithMessage("done".into()))),
+        ]
+    };
+    for (tpl, w) in [
+        // "{prefix}: {wide_msg}\n[{pos}/{len}] {percent}%"
+        (vec![k("prefix"), l(": "), k("wide_msg"), nl(), l("["), k("pos"), l("/"), k("len"), l("] "), k("percent"), l("%"), k("probe")], 40u16),
+        // unknown key / custom keys / a key with a width first on the line after a wide_msg line
+        (vec![k("wide_msg"), nl(), l("<"), k("foo"), l("> "), k("pos"), k("probe")], 40),
+        (vec![k("wide_msg"), k("probe"), nl(), k("ck"), l("|"), k("lg")], 40),
+        (vec![k("pos"), l(" "), k("wide_msg"), l("|"), nl(), kw("len", 6), l("|"), k("probe")], 30),
+        // a wide element on every line, each filling its own line; plain lines after them
+        (vec![l("["), k("wide_bar"), l("]"), nl(), k("wide_msg"), l(" "), kw("pos", 5), nl(), k("msg"), l("|"), k("len"), k("probe")], 31),
+        (vec![k("wide_msg"), nl(), k("wide_msg"), l("!"), nl(), k("wide_bar"), k("probe")], 12),
+        (vec![k("wide_bar"), nl(), k("prefix"), k("probe"), nl(), k("wide_bar")], 7),
+        // a wide element on the final line only
+        (vec![k("pos"), l("/"), k("len"), nl(), k("spinner"), l(" "), k("wide_msg"), k("probe")], 20),
+        // empty lines: inner, first, after a trailing newline; a line with nothing but an empty value
+        (vec![k("pos"), k("probe"), nl(), nl(), k("len"), nl()], 1000),
+        (vec![nl(), k("pos"), k("probe")], 1000),
+        (vec![nl(), nl(), k("msg"), k("probe"), nl()], 1000),
+        (vec![k("probe"), nl(), k("pos")], 1000),
+        (vec![k("pos"), nl(), k("probe")], 1000),
+        (vec![k("foo"), nl(), k("msg"), k("probe"), nl(), k("foo")], 1000),
+        (vec![k("wide_msg"), nl(), k("probe"), nl(), k("wide_msg"), nl()], 9),
+    ] {
+        let cfg = base_cfg(tpl, Some(10), w);
+        run_case(s, &cfg, &ml_ops(), "corpus:multi-line");
+    }
+    // a message of several rows inside a multi-line template
+    let cfg = base_cfg(vec![k("pos"), nl(), k("msg"), l("|"), nl(), k("len"), k("probe")], Some(10), 1000);
+    run_case(s, &cfg, &[(0, Op::SetMessage("r1\nr2\n".into())), (0, Op::Inc(1)), (0, Op::SetMessage("".into()))], "corpus:multi-line");
+    // the one cross-line effect the code has (Keys.v: `wide` is never reset, WideElement::expand
+    // replaces every NUL of the line it is applied to): a NUL in the TEXT of a line after a wide
+    // line (theorem C11_wide_element_carried_witness).  Correspondence only.
+    for (tpl, w) in [
+        (vec![k("wide_msg"), nl(), k("prefix"), k("probe")], 8u16),
+        (vec![k("wide_msg"), l("|"), k("prefix"), k("probe")], 12),
+        (vec![k("prefix"), k("probe"), nl(), k("wide_msg")], 8),
+    ] {
+        let mut cfg = base_cfg(tpl, Some(10), w);
+        cfg.nul = true;
+        run_case(s, &cfg, &[(0, Op::SetMessage("m".into())), (0, Op::SetPrefix("a\0b".into())), (0, Op::Inc(1))], "corpus:nul-carry");
+    }
     // finish at elapsed == 0: per_sec is 0/0 or x/0
     let cfg = base_cfg(t(&[("per_sec", None), ("bytes_per_sec", None), ("per_sec", Some(2))]), Some(10), 1000);
     run_case(s, &cfg, &[(0, Op::Finish(Fin::AndLeave)), (0, Op::ForceDraw)], "corpus:nan-rate");
@@ -1413,8 +1607,10 @@ fn main() {
                   Definition E := Build_env.\nDefinition O := Build_tobs.\nDefinition V := Build_view.\n";
     let mut s = Session::new(&a, "C11", header, "kcase", "keys_check");
     s.shard_size = 150;
-    s.rule = "a case = style (template of 1..12 placeholders from the 28 documented keys, unknown keys, custom keys incl. \
-              ones shadowing built-in names; optional width; at most one wide key) + history of 0..14 public ProgressBar \
+    s.rule = "a case = style (template of 1..3 lines - 2 of 5 random templates have 2..3 lines, with empty lines, a \
+              trailing newline, wide_msg / wide_bar on final and non-final lines and placeholders on the lines after them - \
+              of 0..12 placeholders from the 28 documented keys, unknown keys, custom keys incl. \
+              ones shadowing built-in names; optional width; at most one wide key per line) + history of 0..14 public ProgressBar \
               calls (tick/inc/dec/set_position/set_length/inc_length/dec_length/unset_length/set_message/set_prefix/\
               finish*/abandon*/reset*/force_draw/update/set_tab_width), each preceded by a mock clock advance from \
               {0,1ns,..,1ms,..,1s,..,27h}; every frame drawn into the Spy terminal is compared with public \
